@@ -1,8 +1,11 @@
 (** C11 — parse structure is invariant under layout and keyword case. Pinned statements only.
-    Kernel lemmas about the pieces the invariance rests on, and the conditional theorem that
-    lifts engine non-interference to every combination of the property's perturbations.
-    Non-interference of the real combinator engine is not proved here (claimed level: other);
-    it is explored by the harness on the corpus. *)
+    Kernel lemmas about the pieces the invariance rests on, the conditional theorem that lifts
+    engine non-interference to every combination of the property's perturbations, and (at the end)
+    layout non-interference of the parser-engine interpreter [Pem.Model] itself: a theorem for every
+    grammar graph that passes the decidable side condition [gap_safe_b] (checked by [vm_compute] on
+    each dumped dialect graph).  The interpreter is tied to the real parser by the Pem
+    correspondence; the lexer's half (which texts lex to aligned token lists) is observed by the
+    differential exploration. *)
 From Sq Require Import Base.Bytes Layout.Model Layout.Proofs.
 
 (** The gap-skipping helpers read only the [is_code] flags ... *)
@@ -129,3 +132,123 @@ Theorem C11_from_engine : forall E kw x y,
   engine_noninterference E kw -> related kw x y -> shape (E x) = shape (E y).
 Proof. exact invariance_from_engine. Qed.
 Print Assumptions C11_from_engine.
+
+(** * Layout non-interference of the parser-engine interpreter (Pem)
+
+    [lleft bs] / [lright bs]: two token lists aligned block by block - a token kept as it is (code
+    and meta tokens can only be kept), or a non-empty run of free gap tokens (whitespace, newline,
+    comment tokens invisible to the graph, [gap_ok_b]: no first-token hint, typed parser or node kind
+    mentions them) replaced by another non-empty run of free gap tokens whose last token is
+    whitespace/newline iff the original's is.  [Rb bs]: corresponding positions (block boundaries).  For every graph with
+    [static_ok_b g U] (bracket ends are single tokens; every option handed to [longest_match]
+    returns matches that start where it was asked), every fuel, all regex oracle tables that agree
+    on kept tokens and reject free gap tokens: the same outcome and, on success, match trees that agree
+    node for node with corresponding span ends and insert positions. *)
+From Coq Require FMapPositive.
+From Sq Require Pem.Model Pem.LayoutRel Pem.LayoutSim Pem.LayoutInv Pem.LayoutEx.
+
+Theorem C11_layout_simulation : forall g U bs rx rx',
+  Pem.LayoutRel.static_ok_b g U = true -> Forall (Pem.LayoutInv.blk_ok g) bs -> Pem.LayoutInv.rx_compat g bs rx rx' ->
+  forall fuel s s' e e', Pem.LayoutInv.Rb bs s s' -> Pem.LayoutInv.Rb bs e e' ->
+  Pem.LayoutSim.res_sim (Pem.LayoutSim.mr_sim (Pem.LayoutInv.Rb bs))
+    (Pem.Model.parse_root g (Pem.Model.toks_of_list (Pem.LayoutInv.lleft bs)) rx fuel s e)
+    (Pem.Model.parse_root g (Pem.Model.toks_of_list (Pem.LayoutInv.lright bs)) rx' fuel s' e').
+Proof. exact Pem.LayoutInv.parse_root_layout_sim. Qed.
+Print Assumptions C11_layout_simulation.
+
+(** The layout clause of the property on the interpreter: if the root grammar matches the code span
+    of the first list without unparsable sections, it matches the code span of the second list,
+    again without unparsable sections, with the same code view (node kinds over code-token ranks). *)
+Theorem C11_layout_invariant : forall g bs rx rx' fuel m,
+  Pem.LayoutRel.gap_safe_b g = true -> Forall (Pem.LayoutInv.blk_ok g) bs -> Pem.LayoutInv.rx_compat g bs rx rx' ->
+  Pem.Model.parse_root g (Pem.Model.toks_of_list (Pem.LayoutInv.lleft bs)) rx fuel
+    (Pem.LayoutInv.cstart (Pem.LayoutInv.lleft bs)) (Pem.LayoutInv.cend (Pem.LayoutInv.lleft bs)) = Pem.Model.ROk m ->
+  Pem.LayoutInv.clean_b g m = true ->
+  exists m',
+    Pem.Model.parse_root g (Pem.Model.toks_of_list (Pem.LayoutInv.lright bs)) rx' fuel
+      (Pem.LayoutInv.cstart (Pem.LayoutInv.lright bs)) (Pem.LayoutInv.cend (Pem.LayoutInv.lright bs)) = Pem.Model.ROk m'
+    /\ Pem.LayoutInv.clean_b g m' = true
+    /\ Pem.LayoutInv.cview (Pem.LayoutInv.lright bs) m' = Pem.LayoutInv.cview (Pem.LayoutInv.lleft bs) m.
+Proof. exact Pem.LayoutInv.pem_layout_invariant. Qed.
+Print Assumptions C11_layout_invariant.
+
+(** The same on plain token lists, with the alignment decided by [layout_related_b] and the regex
+    parsers as an arbitrary oracle (a function of the regex and the token) that rejects free gap tokens. *)
+Theorem C11_layout_invariant_lists : forall g l l' orx rx rx' fuel m,
+  Pem.LayoutRel.gap_safe_b g = true -> Pem.LayoutInv.layout_related_b g l l' = true ->
+  Pem.LayoutInv.rx_records orx l rx -> Pem.LayoutInv.rx_records orx l' rx' ->
+  (forall rid t, Pem.LayoutRel.okgap g t -> In t l \/ In t l' -> orx rid t = false) ->
+  Pem.Model.parse_root g (Pem.Model.toks_of_list l) rx fuel (Pem.LayoutInv.cstart l) (Pem.LayoutInv.cend l) = Pem.Model.ROk m ->
+  Pem.LayoutInv.clean_b g m = true ->
+  exists m',
+    Pem.Model.parse_root g (Pem.Model.toks_of_list l') rx' fuel (Pem.LayoutInv.cstart l') (Pem.LayoutInv.cend l') = Pem.Model.ROk m'
+    /\ Pem.LayoutInv.clean_b g m' = true /\ Pem.LayoutInv.cview l' m' = Pem.LayoutInv.cview l m.
+Proof. exact Pem.LayoutInv.pem_layout_invariant_lists. Qed.
+Print Assumptions C11_layout_invariant_lists.
+
+(** Whatever the outcome, it is the same on both lists: success (same cleanliness, same code view),
+    parse error, the same abort, or out of fuel. *)
+Theorem C11_layout_same_outcome : forall g bs rx rx' fuel s s' e e',
+  Pem.LayoutRel.gap_safe_b g = true -> Forall (Pem.LayoutInv.blk_ok g) bs -> Pem.LayoutInv.rx_compat g bs rx rx' ->
+  Pem.LayoutInv.Rb bs s s' -> Pem.LayoutInv.Rb bs e e' ->
+  match Pem.Model.parse_root g (Pem.Model.toks_of_list (Pem.LayoutInv.lleft bs)) rx fuel s e,
+        Pem.Model.parse_root g (Pem.Model.toks_of_list (Pem.LayoutInv.lright bs)) rx' fuel s' e' with
+  | Pem.Model.ROk m, Pem.Model.ROk m' =>
+      Pem.LayoutInv.clean_b g m' = Pem.LayoutInv.clean_b g m
+      /\ Pem.LayoutInv.cview (Pem.LayoutInv.lright bs) m' = Pem.LayoutInv.cview (Pem.LayoutInv.lleft bs) m
+  | Pem.Model.RErr, Pem.Model.RErr => True
+  | Pem.Model.RPanic p, Pem.Model.RPanic p' => p = p'
+  | Pem.Model.RFuel, Pem.Model.RFuel => True
+  | _, _ => False
+  end.
+Proof. exact Pem.LayoutInv.pem_layout_same_outcome. Qed.
+Print Assumptions C11_layout_same_outcome.
+
+(** The span handed to the root grammar (first to last code token) corresponds. *)
+Theorem C11_layout_code_span : forall g bs, Forall (Pem.LayoutInv.blk_ok g) bs ->
+  Pem.LayoutInv.Rb bs (Pem.LayoutInv.cstart (Pem.LayoutInv.lleft bs)) (Pem.LayoutInv.cstart (Pem.LayoutInv.lright bs))
+  /\ Pem.LayoutInv.Rb bs (Pem.LayoutInv.cend (Pem.LayoutInv.lleft bs)) (Pem.LayoutInv.cend (Pem.LayoutInv.lright bs)).
+Proof. exact Pem.LayoutInv.code_span_sim. Qed.
+Print Assumptions C11_layout_code_span.
+
+(** The clause "the last token of a gap keeps its class" cannot be dropped: same code tokens, every
+    gap still non-empty, every gap token invisible to the graph, and the parse is lost (a comment
+    directly before a keyword terminator; the guard of [greedy_match]). *)
+Theorem C11_layout_last_class_needed :
+  exists g bs fuel m,
+    Pem.LayoutRel.gap_safe_b g = true /\ Forall (Pem.LayoutEx.blk_ok_weak g) bs
+    /\ Pem.Model.parse_root g (Pem.Model.toks_of_list (Pem.LayoutInv.lleft bs)) [] fuel
+         (Pem.LayoutInv.cstart (Pem.LayoutInv.lleft bs)) (Pem.LayoutInv.cend (Pem.LayoutInv.lleft bs)) = Pem.Model.ROk m
+    /\ Pem.LayoutInv.clean_b g m = true
+    /\ forall m',
+         Pem.Model.parse_root g (Pem.Model.toks_of_list (Pem.LayoutInv.lright bs)) [] fuel
+           (Pem.LayoutInv.cstart (Pem.LayoutInv.lright bs)) (Pem.LayoutInv.cend (Pem.LayoutInv.lright bs)) = Pem.Model.ROk m' ->
+         Pem.LayoutInv.cview (Pem.LayoutInv.lright bs) m' <> Pem.LayoutInv.cview (Pem.LayoutInv.lleft bs) m.
+Proof. exact Pem.LayoutEx.layout_last_class_needed. Qed.
+Print Assumptions C11_layout_last_class_needed.
+
+(** What [gap_safe_b] excludes is layout-sensitive in the engine: with a Greedy AnyNumberOf as an
+    alternative of a OneOf tried at the start of a gap, the *length* of a whitespace run decides
+    between a clean parse and an unparsable section (no real dialect graph has this shape). *)
+Theorem C11_layout_greedy_option_sensitive :
+  exists g l l' fuel m,
+    Pem.LayoutInv.layout_related_b g l l' = true
+    /\ Pem.Model.parse_root g (Pem.Model.toks_of_list l) [] fuel (Pem.LayoutInv.cstart l) (Pem.LayoutInv.cend l) = Pem.Model.ROk m
+    /\ Pem.LayoutInv.clean_b g m = true
+    /\ (forall m', Pem.Model.parse_root g (Pem.Model.toks_of_list l') [] fuel (Pem.LayoutInv.cstart l') (Pem.LayoutInv.cend l') = Pem.Model.ROk m' ->
+                   Pem.LayoutInv.clean_b g m' = false)
+    /\ Pem.LayoutRel.gap_safe_b g = false.
+Proof. exact Pem.LayoutEx.layout_greedy_option_sensitive. Qed.
+Print Assumptions C11_layout_greedy_option_sensitive.
+
+(** The property's layout perturbations are alignments: at one site a run of free gap tokens is replaced
+    by another whose last token has the same class (whitespace run -> other whitespace/newlines, a doubled
+    blank line, a comment inserted inside whitespace, an inline comment before a newline); several sites at
+    once are a block list with several such blocks. *)
+Theorem C11_layout_one_site : forall g pre post w x w' x',
+  Forall (Pem.LayoutRel.okgap g) (w ++ [x]) -> Forall (Pem.LayoutRel.okgap g) (w' ++ [x']) ->
+  Pem.LayoutRel.wsn g x = Pem.LayoutRel.wsn g x' ->
+  exists bs, Forall (Pem.LayoutInv.blk_ok g) bs
+             /\ Pem.LayoutInv.lleft bs = pre ++ (w ++ [x]) ++ post /\ Pem.LayoutInv.lright bs = pre ++ (w' ++ [x']) ++ post.
+Proof. exact Pem.LayoutInv.layout_one_site. Qed.
+Print Assumptions C11_layout_one_site.
